@@ -96,3 +96,33 @@ Theorem C06_extractor_is_lazy_queue : forall (s : egraph) (cf : nat), usages_ok 
   forall c, tbl m c = lazy_run (f_cf cf) true (pop_tb last) (agraph cf s) c.
 Proof. exact extractor_new_eq_lazy_run. Qed.
 Print Assumptions C06_extractor_is_lazy_queue.
+
+(* third session (Extract/ExtractorReach.v, ExtractorBridgeUp.v, UsagesOk.v, NfOk.v, ExtractOkb.v, EGraph/UsesConv*.v,
+   EGraph/StaticFacts.v): the two state premises of the bridge are discharged for every reachable state - `usages_ok` as it
+   stands (new invariant uses_conv), `nf_ok` in the weaker form the extractor really needs (`nf_ok` AS STATED IS FALSE on a
+   reachable state when the fresh counter is moved DOWN: ExtractorBridgeUp.nf_ok_false_on_reachable; the extractor only moves
+   it up, and the bridge is re-proved under `nf_ok_up`).  Hence for EVERY history of insertions and unions over statically
+   well-formed terms, with no premise on the state: the concrete extractor's table is the lazy queue's, holds exactly the
+   minimum derivation cost of every class, and every extracted term costs the table value of its class, which no
+   derivation of the class undercuts (cf = 0 AstSize, 1 depth-weighted, 2 per-operator weights).  Still per run only:
+   membership of the extracted term in the class (checker Extract/ExtractRepr.extract_reprb; on the implementation the
+   extracted term is re-looked-up). *)
+From SE Require Import EGraph.ModelMachine EGraph.OpsPreFacts EGraph.StaticFacts Extract.Extractor.
+Theorem C06_extractor_table_is_minimum_for_all_histories : forall terms ops hs s, List.Forall term_static terms ->
+  run_ops terms ops [] empty_egraph = Ok (hs, s) ->
+  forall cf last m s', extractor_new last cf s = Ok (m, s') ->
+  (forall c k, tbl m c = Some k ->
+     Knuth.derivable (f_cf cf) (agraph cf s) c k /\ (forall k', Knuth.derivable (f_cf cf) (agraph cf s) c k' -> (k <= k')%nat)) /\
+  (forall c, tbl m c = None -> forall k, ~ Knuth.derivable (f_cf cf) (agraph cf s) c k).
+Proof. exact extractor_table_is_minimum_static. Qed.
+Print Assumptions C06_extractor_table_is_minimum_for_all_histories.
+
+Theorem C06_extracted_term_is_cheapest_for_all_histories : forall terms ops hs s, List.Forall term_static terms ->
+  run_ops terms ops [] empty_egraph = Ok (hs, s) ->
+  forall cf last m s0, extractor_new last cf s = Ok (m, s0) ->
+  forall fuel i t s', extract fuel m i s = Ok (t, s') ->
+  exists i' k, find_applied_id s i = Ok i' /\ cost_rec cf t = Ok k /\ get_best_cost m i' = Ok k /\
+    Knuth.derivable (f_cf cf) (agraph cf s) (N.to_nat (aid i')) (N.to_nat k) /\
+    (forall k', Knuth.derivable (f_cf cf) (agraph cf s) (N.to_nat (aid i')) k' -> (N.to_nat k <= k')%nat).
+Proof. exact extract_cheapest_static. Qed.
+Print Assumptions C06_extracted_term_is_cheapest_for_all_histories.
